@@ -220,7 +220,11 @@ type caseT struct {
 	Redact    []string // exact paths the redactor covers
 	RedactSub string   `json:",omitempty"` // additionally: every path containing this substring
 	Pkg       bool     // use the package-level functions (default validator) instead of a Validator value
-	ViaApp    bool     `json:",omitempty"` // partial mode through app.Context.Bind(WithPartial) on a PATCH request
+	ViaApp    bool     `json:",omitempty"` // partial mode through app.Context on a PATCH request
+	// AppVia: how the handler asks for partial validation: 0 Bind(WithPartial()); 1 BindOnly then
+	// Validate(validation.WithPartial(true)); 2 Bind(WithValidationOptions(validation.WithPartial(true)));
+	// 3 Bind(WithPartial(), WithPresence(pm)) with the presence map computed by the handler
+	AppVia int `json:",omitempty"`
 	// Variant: 1 = the options are given to validation.New (base configuration of a fresh Validator), the call
 	// passes none of them; 2 = as 1, and the call overrides a different base WithMaxErrors;
 	// 3 = partial mode through Validate(WithPartial(true), WithPresence(pm)) instead of ValidatePartial
@@ -563,6 +567,9 @@ func genCase(r *hx.Rand, tier string) caseT {
 	}
 	c.Pkg = r.Chance(1, 4)
 	c.ViaApp = c.Mode == 0 && r.Chance(1, 4)
+	if c.ViaApp {
+		c.AppVia = r.Intn(4)
+	}
 	if !c.ViaApp && r.Chance(1, 6) {
 		c.Variant = r.Range(1, 3)
 		if c.Variant == 3 && c.Mode != 0 {
@@ -1052,7 +1059,18 @@ func observe(c *caseT, rt reflect.Type, secrets []string) (o obsT) {
 						o.kind = "P"
 					}
 				}()
-				verr = ac.Bind(ptr.Interface(), app.WithPartial(), app.WithValidationOptions(opts...))
+				switch c.AppVia {
+				case 1:
+					if verr = ac.BindOnly(ptr.Interface()); verr == nil {
+						verr = ac.Validate(ptr.Interface(), append([]validation.Option{validation.WithPartial(true)}, opts...)...)
+					}
+				case 2:
+					verr = ac.Bind(ptr.Interface(), app.WithValidationOptions(append([]validation.Option{validation.WithPartial(true)}, opts...)...))
+				case 3:
+					verr = ac.Bind(ptr.Interface(), app.WithPartial(), app.WithPresence(pm), app.WithValidationOptions(opts...))
+				default:
+					verr = ac.Bind(ptr.Interface(), app.WithPartial(), app.WithValidationOptions(opts...))
+				}
 				if apm := ac.Presence(); apm != nil {
 					o.pm = sortedKeys(apm)
 					o.leaves = apm.LeafPaths()
@@ -1375,7 +1393,7 @@ func emit(id string, c caseT, st *hx.Stats) string {
 		st.Count("mode_" + []string{"partial", "full", "runall", "interface"}[c.Mode])
 		st.Count("obs_" + o.kind)
 		if c.ViaApp {
-			st.Count("via_app_context_bind")
+			st.Count("via_app_context_" + []string{"bind_withpartial", "bindonly_then_validate", "bind_validationoption_partial", "bind_withpresence"}[c.AppVia])
 		}
 		if c.Variant != 0 {
 			st.Count("variant_" + []string{"", "base_options", "base_options_overridden", "validate_with_partial_option"}[c.Variant])
